@@ -5,7 +5,7 @@
     against IO/Reader.v reader_params -- for all float inputs. *)
 From Coq Require Import ZArith List Bool.
 From Flocq Require Import IEEE754.BinarySingleNaN.
-From AV Require Import Base.PyList Base.PyFloat Tok.Model IO.Reader IO.Layers.
+From AV Require Import Base.PyList Base.PyFloat Tok.Model IO.Reader IO.Layers IO.Layers2.
 From AVGen Require Import TieTac GenReader.
 Import ListNotations.
 Open Scope Z_scope.
@@ -38,6 +38,10 @@ Proof. unfold ov_first_gen, ov_first. cbv zeta. destruct (inner W); reflexivity.
 
 Lemma tie_ov_next S (inner : Z -> option (list S)) W H c : ov_next_gen inner W H c = ov_next H c inner.
 Proof. unfold ov_next_gen, ov_next, nonempty. cbv zeta. destruct (inner H) as [[|x blk]|]; reflexivity. Qed.
+
+(** _Limiter.data: the recorded data cut at the sample budget *)
+Lemma tie_lim_data S mx (d : list S) : lim_data_gen mx d = lim_data mx d.
+Proof. reflexivity. Qed.
 
 Print Assumptions tie_reader_params.
 Print Assumptions tie_lim_read.
